@@ -186,6 +186,8 @@ func (g *Gen) toSpecInt(v Val) Term {
 
 func isUntyped(v Val) bool { return v.T == nil }
 
+func isNilVal(v Val) bool { return v.T == types.Typ[types.UntypedNil] }
+
 func (g *Gen) specTypeByName(name string, pkg *types.Package) types.Type {
 	switch name {
 	case "int":
@@ -652,6 +654,22 @@ func (g *Gen) specBin(e *E, cx *Ctx) Val {
 	}
 	a := g.evalSpec(e.Args[0], cx)
 	b := g.evalSpec(e.Args[1], cx)
+	if (op == "==" || op == "!=") && (isNilVal(a) != isNilVal(b)) {
+		// slice/pointer/interface compared with nil: Go compares the data pointer only
+		x := a
+		if isNilVal(a) {
+			x = b
+		}
+		if x.T != nil {
+			if _, isSlice := x.T.Underlying().(*types.Slice); isSlice {
+				r := eq(x.C[0], tInt(0))
+				if op == "!=" {
+					r = not(r)
+				}
+				return Val{T: boolT, C: []Term{r}}
+			}
+		}
+	}
 	a, b = g.unify(a, b)
 	switch op {
 	case "==", "!=":
